@@ -11,10 +11,12 @@ is represented by its length (nothing in the decoder or the constraints reads an
 buffer; the contents flow only into events, which are checked on the transition that emits them).
 """
 import collections
+import sys
+import types
 
 from .. import impl, loader
 
-SKIP = ("processor", "buffer_iter", "buffer", "field", "error", "none", "_", "root_path", "command_code_path", "byte", "tpm_type_")
+SKIP = ("buffer_iter", "buffer", "field", "error", "none", "_", "root_path", "command_code_path", "byte")
 
 
 def absv(v, ns):
@@ -28,10 +30,8 @@ def absv(v, ns):
         return v.__name__
     if isinstance(v, ns.Path):
         return str(v)
-    if isinstance(v, ns.constraints.SizeConstraintList):
-        return tuple(absv(c, ns) for c in v)
-    if isinstance(v, ns.constraints.SizeConstraint):
-        return ("SC", str(v.constraint_path), v.size_already, None if v.size_max is None else int(v.size_max), v.is_obsolete)
+    if hasattr(v, "size_already") and hasattr(v, "size_max"):
+        return ("SC", str(getattr(v, "constraint_path", None)), v.size_already, None if v.size_max is None else int(v.size_max), getattr(v, "is_obsolete", None))
     if hasattr(v, "_int_size"):
         return (type(v).__name__, int(v))
     if isinstance(v, list):
@@ -57,21 +57,45 @@ def absv(v, ns):
     return ("?", type(v).__name__)
 
 
-def frames(g, ns):
-    """canonical form of the coroutine stack.  NEVER reads gi_yieldfrom of a running generator (CPython 3.12.1
-    returns garbage there): the pump is running while we are called from inside next(buffer_iter), so its
-    delegate is taken from its locals."""
-    out = []
-    while g is not None and getattr(g, "gi_frame", None) is not None:
+def _is_gen(v):
+    return isinstance(v, types.GeneratorType)
+
+
+def _suspended_chain(g, ns, out, seen):
+    """a suspended generator and everything it delegates to (gi_yieldfrom is safe on suspended generators only)"""
+    while g is not None and _is_gen(g) and g.gi_frame is not None and id(g) not in seen:
+        seen.add(id(g))
         f = g.gi_frame
-        loc = tuple(sorted((k, absv(v, ns)) for k, v in f.f_locals.items() if k not in SKIP))
+        loc = tuple(sorted((k, absv(v, ns)) for k, v in f.f_locals.items() if k not in SKIP and not _is_gen(v)))
         out.append((g.gi_code.co_name, f.f_lasti, loc))
         if g.gi_running:
-            nxt = f.f_locals.get("processor") if g.gi_code.co_name == "marshal" else None
-        else:
-            nxt = g.gi_yieldfrom
-        g = nxt
-    return tuple(out)
+            break
+        g = g.gi_yieldfrom
+
+
+def frames_from_stack(ns, start_depth=2):
+    """canonical form of the decoder's coroutine stack, taken from inside the byte source's __next__: the generator
+    frames that are *running* are on the Python call stack above us (the pump, and whatever wraps it); the coroutines
+    they drive are suspended generators found among their locals, followed through gi_yieldfrom.  No name of a
+    function or local of tpmstream is assumed.  Returns None when no decoder coroutine is alive any more."""
+    out, seen = [], set()
+    f = sys._getframe(start_depth)
+    running = []
+    while f is not None and f.f_code.co_flags & 0x20 and "tpmstream" in f.f_code.co_filename:  # CO_GENERATOR
+        running.append(f)
+        f = f.f_back
+    if not running:
+        return None
+    alive = False
+    for fr in reversed(running):  # outermost first
+        gens = [v for v in fr.f_locals.values() if _is_gen(v)]
+        loc = tuple(sorted((k, absv(v, ns)) for k, v in fr.f_locals.items() if k not in SKIP and not _is_gen(v)))
+        out.append((fr.f_code.co_name, fr.f_lasti, loc))
+        for gsub in gens:
+            if gsub.gi_frame is not None and not gsub.gi_running:
+                alive = True
+                _suspended_chain(gsub, ns, out, seen)
+    return tuple(out) if alive else None
 
 
 class Feed:
@@ -93,9 +117,7 @@ class Feed:
         if self.i >= len(self.b):
             self.asked += 1
             if self.state is None and self.g is not None and self.g.gi_frame is not None:
-                p = self.g.gi_frame.f_locals.get("processor")
-                if p is not None and p.gi_frame is not None:
-                    self.state = frames(self.g, self.ns)
+                self.state = frames_from_stack(self.ns)
             raise StopIteration
         v = self.b[self.i]
         self.i += 1
